@@ -177,6 +177,13 @@ pub fn check_cli(dict: &[WR], tag: &str) -> Option<(String, String)> {
 /// CLI history: several dumps (of models with different dictionaries) go to the SAME csv path and
 /// several outputs to the SAME model path, as a user iterating on a dictionary would do; after the
 /// last dump, replacing with it must reproduce the last model byte for byte.
+pub fn large_dict(n: usize) -> Vec<WR> {
+    (0..n).map(|i| {
+        let word: String = format!("{}{}", ['a', 'あ', 'x', '犬'][i % 4], i).chars().map(|c| if c == '7' { ',' } else { c }).collect();
+        WR { weights: (0..word.chars().count() + 1).map(|k| ((i * 31 + k * 7) % 2001) as i32 - 1000).collect(), comment: if i % 5 == 0 { format!("c\"{i}") } else { String::new() }, word }
+    }).collect()
+}
+
 pub fn check_cli_history(dicts: &[Vec<WR>], tag: &str) -> Option<(String, String)> {
     let dir = format!("{SCRATCH}/c19h-{tag}");
     let _ = std::fs::create_dir_all(&dir);
@@ -220,6 +227,11 @@ pub fn replay(c: &Value) -> Option<(String, String)> {
         let dicts: Vec<Vec<WR>> = serde_json::from_value(c["dicts"].clone()).ok()?;
         let label = c["label"].as_str()?;
         return check_cli_history(&dicts, "replay").map(|(k, w)| (format!("{k} order={label}"), w));
+    }
+    if c["kind"] == "cli-large" {
+        let n = c["n"].as_u64()? as usize;
+        let dict = large_dict(n);
+        return check_cli(&dict, "replay-large").map(|(k, w)| (format!("{k} words=large"), w.chars().take(300).collect()));
     }
     match c["kind"].as_str()? {
         "replace" => {
@@ -324,6 +336,26 @@ pub fn run(tier: Tier) -> ! {
         chk.nontrivial(1);
         if let Some((k, what)) = check_cli(&dict, tag) {
             chk.violation(format!("{k} words={tag}"), what, json!({"kind": "cli", "label": tag, "dict": dict}));
+        }
+    }
+    // a LARGE dictionary (12 000 / 60 000 distinct words: model well above 128 KiB, CSV above any buffer), so that
+    // the dump, the CSV reader and the model writer all work across many internal blocks
+    {
+        let n = tier.pick(12_000usize, 60_000);
+        let dict = large_dict(n);
+        let mut m = models::build(&[Entry::Char("a".into())], 2, 2, 1, 0);
+        m.dict_model = dict.clone();
+        let sz = m.to_bytes().len();
+        if sz < 200_000 {
+            machinery_error(&format!("the large dictionary gives a model of only {sz} bytes"));
+        }
+        chk.set("large_dictionary_words", json!(n));
+        chk.set("large_model_bytes", json!(sz));
+        chk.eval(1);
+        chk.nontrivial(1);
+        if let Some((k, what)) = check_cli(&dict, "large") {
+            let what: String = what.chars().take(300).collect();
+            chk.violation(format!("{k} words=large"), what, json!({"kind": "cli-large", "n": n}));
         }
     }
     // histories: every ordered pair and triple of 5 dictionaries of different sizes through the same files
